@@ -85,6 +85,13 @@ void restore_command_giver () {
   command_giver = *(cgsp--);
 }
 
+#ifdef NEOLITH_VERIF
+/* verification hook: depth of the (static) command giver save stack */
+int verif_command_giver_depth (void) {
+  return (int)(cgsp - command_giver_stack);
+}
+#endif
+
 /*********************************************************************/
 
 /**
